@@ -1690,6 +1690,15 @@ class Interp:
         # derive(Default) / Default::default() on user types
         if name == 'default' and (ty in prog.structs or ty in prog.enums):
             return self.default_of_named(ty)
+        # derive(Deserialize): T::deserialize(<serde_json::Value>)
+        if name == 'deserialize' and (ty in prog.structs or ty in prog.enums) and len(argnodes) == 1:
+            from .models import json as J
+            arg = deref(self.eval(argnodes[0], env, ctx))
+            if J.is_value(arg):
+                try:
+                    return Ok(J.from_value(self, arg, self._named_type(ty)))
+                except J.DeErr as ex:
+                    return Err(Struct('serde_json::Error', {'msg': Str(str(ex))}))
         args = [self.eval(a, env, ctx) for a in argnodes]
         return self.B.call_builtin_path(self, segs[:-2] + [ty, name], args, hint, self.path_generics(f['path']))
 
